@@ -214,3 +214,40 @@ func FullyChecked(line string, table []float64) (float64, error) {
 	}
 	return table[idx], nil
 }
+
+type cursor struct {
+	cur    int
+	counts []int
+	done   int
+}
+
+// silent:DL (a counted loop is outside the rule) a counter kept in the reader is stepped on every iteration.
+func (c *cursor) SkipEmpty() bool {
+	for {
+		if c.cur == len(c.counts) {
+			return false
+		}
+		if c.done < c.counts[c.cur] {
+			return true
+		}
+		c.done = 0
+		c.cur++
+	}
+}
+
+// want:DL the counter is not stepped on the path that continues.
+func (c *cursor) SkipEmptyBad() bool {
+	for {
+		if c.cur == len(c.counts) {
+			return false
+		}
+		if c.counts[c.cur] < 0 {
+			continue
+		}
+		if c.done < c.counts[c.cur] {
+			return true
+		}
+		c.done = 0
+		c.cur++
+	}
+}
